@@ -23,9 +23,24 @@ var (
 	condPool   = []string{"my-error", "bad-thing", "oops"}
 	kwPool     = []string{":a", ":scale", ":k", ":val", ":x1", ":helper", ":acc"}
 	pkgPool    = []string{"lib", "util", "app", "core"}
+	dirPool    = []string{"billing", "shipping", "core", "svc/api", "lib/v2", "."}
+	basePool   = []string{"util.lisp", "main.lisp", "defs.lisp", "handlers.lisp"}
 	freePool   = []string{"zz", "nope", "x9", "undefined-thing"}
 	stringPool = []string{`"s"`, `"a b"`, `"x1"`, `"helper"`, `""`, `"q\"uote"`}
 )
+
+// leadInfo describes the first top-level definition of a file: files that share
+// a base name (pkg-a/util.lisp, pkg-b/util.lisp) and start with the same
+// boilerplate put same-named definitions at the same line and column, which is
+// exactly when an identity keyed on (name, kind, file, line, col) must still
+// tell the files apart.
+type leadInfo struct {
+	lines int
+	kind  string
+	name  string
+	pkg   string
+	base  string
+}
 
 type gen struct {
 	t   *rapid.T
@@ -50,6 +65,8 @@ type gen struct {
 	fileIdx        int
 	trig           map[string]bool // which known-defect triggers this case may use
 	ndrv           int
+	lead           *leadInfo // where the first definition of the current file landed
+	twin           *leadInfo // make the current file's first definition coincide with this one
 }
 
 // bitGens[k] draws exactly k fair bits in one call.  rapid.IntRange is
